@@ -664,7 +664,7 @@ def _update(
         else:
             new_v1_vinfo = v1version.parse_version_info(new_version, cfg.version_pattern)
             v1rewrite.rewrite_files(cfg.file_patterns, new_v1_vinfo)
-    except rewrite.NoPatternMatch as ex:
+    except (rewrite.NoPatternMatch, OSError) as ex:
         logger.error(str(ex))
         sys.exit(1)
 
